@@ -38,7 +38,7 @@ MODS = [
     ("with_path", "/new%20p", {"encoded": True, "keep_query": True, "keep_fragment": True}), ("with_path", "/new", {"encoded": True, "keep_query": True}),
     ("with_path", "/new", {"encoded": True, "keep_fragment": True}), ("with_path", "/new", {"encoded": True}),
     ("with_name", "n m", {}), ("with_name", "nm", {"keep_query": True, "keep_fragment": True}),
-    ("with_suffix", ".x y", {}), ("with_suffix", "", {"keep_query": True}),
+    ("with_suffix", ".x y", {}), ("with_suffix", "", {"keep_query": True}), ("with_name", "@same", {}), ("with_suffix", "@same", {}), ("with_name", "@same", {"keep_query": True}),
     ("div", "seg ment"), ("joinpath", ["s1", "s 2"]), ("parent",), ("origin",), ("relative",),
 ]
 
@@ -86,6 +86,12 @@ def check_mod(ctx, backend, base, mod, enumerated=False):
         return
     name = mod[0]
     a = list(mod[1:])
+    if a and a[0] == "@same":
+        # exactly the name / suffix the URL already has
+        a[0] = B.name if name == "with_name" else B.suffix
+        if name == "with_name" and (not a[0] or "/" in a[0]):
+            ctx.case(False, label="skipped:not-applicable")
+            return
     nontrivial = ":" in (B.raw_host or "") or B.explicit_port is not None or (B.raw_authority.count("@") and (B.raw_user is None or B.raw_password == ""))
     try:
         if name == "div":
@@ -193,6 +199,31 @@ def check_mod(ctx, backend, base, mod, enumerated=False):
 CHECKS = {"mod": check_mod}
 
 
+def empty_host_bases(ctx, backend):
+    """authorities with an empty host on non-special schemes, obtained on routes that do not pre-fill the cache"""
+    Y = ctx.yarl(backend)
+    for auth in ("u:p@:81", ":81", "u@", "u:@:0", ":p@:65535"):
+        for path, q, f in (("/p", "q=1", "f"), ("", "", ""), ("/p", "", "")):
+            s = "x-foo://" + auth + path + ("?" + q if q else "") + ("#" + f if f else "")
+            makers = {"enc": lambda: Y.URL(s, encoded=True), "derived": lambda: Y.URL(s).with_fragment("tmp").with_fragment(f or None), "build": lambda: Y.URL.build(scheme="x-foo", authority=auth, path=path, query_string=q, fragment=f),
+                      "pickle": lambda: __import__("pickle").loads(__import__("pickle").dumps(Y.URL(s)))}
+            for how, mk in makers.items():
+                for mname, arg in (("with_user", "nu"), ("with_user", None), ("with_password", "np"), ("with_password", None), ("with_port", 82), ("with_port", None), ("with_fragment", "zz"), ("with_scheme", "x-bar")):
+                    ctx.cur = ("mod", {"backend": backend, "base": s, "mod": [mname, arg], "how": how})
+                    try:
+                        B = mk()
+                        before = (B.raw_user, B.raw_password, B.explicit_port, B.raw_path or "/", B.raw_query_string, B.raw_fragment, B.scheme)
+                        R = getattr(B, mname)(arg)
+                    except (ValueError, TypeError):
+                        ctx.case(False, label="rejected:empty-host")
+                        continue
+                    ctx.case(True, label="empty-host/" + mname, key=("eh", backend, s, mname, repr(arg), how))
+                    after = (R.raw_user, R.raw_password, R.explicit_port, R.raw_path or "/", R.raw_query_string, R.raw_fragment, R.scheme)
+                    idx = {"with_user": {0} if arg is not None else {0, 1}, "with_password": {1}, "with_port": {2}, "with_fragment": {5}, "with_scheme": {6}}[mname]
+                    changed = {i for i in range(7) if before[i] != after[i]}
+                    ctx.check(changed <= idx, "a modifier on a URL with an empty host changed (or lost) other components", observed={"before": before, "after": after, "how": how}, expected="only the targeted component changes", entry=mname)
+
+
 def matrix(ctx, backend, part, nparts):
     i = 0
     for b in itertools.product(SCHEMES, UIS, HOSTS, PORTS, PATHS, QUERIES, FRAGS):
@@ -227,4 +258,5 @@ def shards(tier, seed):
             out.append({"name": "matrix-%s-%d" % (b, p), "fn": "matrix", "kw": {"backend": b, "part": p, "nparts": 6}})
         for i in range(2):
             out.append({"name": "gen-%s-%d" % (b, i), "fn": "generated", "kw": {"backend": b, "n": n}})
+        out.append({"name": "empty-host-%s" % b, "fn": "empty_host_bases", "kw": {"backend": b}})
     return out
